@@ -22,6 +22,7 @@ var registry = map[string]checkFn{
 	"C25": checkC25,
 	"C28": checkC28,
 	"C32": checkC32,
+	"C33": checkC33,
 	"C34": checkC34,
 }
 
